@@ -29,12 +29,14 @@ def model_class():
         from glotaran.builtin.megacomplexes.decay import DecayMegacomplex
         from glotaran.builtin.megacomplexes.decay import DecayParallelMegacomplex
         from glotaran.builtin.megacomplexes.decay import DecaySequentialMegacomplex
+        from glotaran.builtin.megacomplexes.pfid import PFIDMegacomplex
         from glotaran.builtin.megacomplexes.spectral import SpectralMegacomplex
         from glotaran.model import Model
 
         _CLS = Model.create_class_from_megacomplexes([
             DecayMegacomplex, DecayParallelMegacomplex, DecaySequentialMegacomplex, SpectralMegacomplex,
-            BaselineMegacomplex, CoherentArtifactMegacomplex, DampedOscillationMegacomplex, ClpGuideMegacomplex])
+            BaselineMegacomplex, CoherentArtifactMegacomplex, DampedOscillationMegacomplex, ClpGuideMegacomplex,
+            PFIDMegacomplex])
     return _CLS
 
 
@@ -110,12 +112,14 @@ class _Params:
         return label
 
 
-def rand_case(rng, *, recover=False, small=True):
-    """one random builtin-megacomplex case.  `recover`: restrict to identifiable kinetic configurations."""
+def rand_case(rng, *, recover=False, small=True, wide=False):
+    """one random builtin-megacomplex case.  `recover`: restrict to the core kinetic configurations (sequential / parallel
+    decay, no or gaussian IRF, no dataset scale).  `wide`: every configuration of the zoo that is not a full model, with
+    every varying parameter listed in `recover` (the recovery stream decides by its stated rule which of them it tests)."""
     P = _Params()
     tags = []
     n_ds = rng.choice([1, 1, 2, 2, 3]) if not recover else rng.choice([1, 1, 2])
-    full = (not recover) and rng.random() < 0.3
+    full = (not recover) and (not wide) and rng.random() < 0.3
     nnls = rng.random() < 0.25
     if full or n_ds == 1:
         link = rng.choice([False, None])
@@ -208,6 +212,7 @@ def rand_case(rng, *, recover=False, small=True):
             dsd["megacomplex"].append(name)
             dsd.update(extra)
             labels += [c for c in comps if c not in labels]
+        pfid_pre = 0
         # irf
         r = rng.random()
         irf_kind = "none"
@@ -258,6 +263,21 @@ def rand_case(rng, *, recover=False, small=True):
                 dsd["megacomplex"].append(f"coh{di+1}")
                 labels += [f"coherent_artifact_{i}_coh{di+1}" for i in range(1, order + 1)]
                 tags.append("coherent-artifact")
+            if irf_kind != "none" and not full and rng.random() < 0.22:
+                # (not in full models: the extra early time points make coherent-artifact x spectral-shape products of
+                # ~1e-290 whose squares are denormal, and LAPACK then needs seconds per factorisation)
+                # perturbed free induction decay: resonances (cm-1) inside the spectral window, negative dephasing rates,
+                # signal before the IRF -> the time axis gets extra points at negative times (below)
+                npf = rng.randint(1, 2)
+                pl = [f"pf{di+1}{chr(97+i)}" for i in range(npf)]
+                lo_, hi_ = min(spec), max(spec)
+                fr = [P.add(f"pff{di+1}_{i+1}", round(lo_ + (hi_ - lo_) * (i + 0.5 + rng.uniform(-0.3, 0.3)) / npf, 3), vary=True) for i in range(npf)]
+                rt = [P.add(f"pfr{di+1}_{i+1}", -rng.uniform(0.4, 1.5), vary=True) for i in range(npf)]
+                md["megacomplex"][f"pfid{di+1}"] = {"type": "pfid", "labels": pl, "frequencies": fr, "rates": rt}
+                dsd["megacomplex"].append(f"pfid{di+1}")
+                labels += [f"{l}_cos" for l in pl] + [f"{l}_sin" for l in pl]
+                tags.append("pfid")
+                pfid_pre = 2 * npf + 3
             if rng.random() < 0.35 or not dsd["megacomplex"]:
                 nosc = rng.randint(1, 2)
                 ol = [f"osc{di+1}{chr(97+i)}" for i in range(nosc)]
@@ -288,6 +308,9 @@ def rand_case(rng, *, recover=False, small=True):
         if irf_kind == "shifted":
             md["irf"][f"irf{di+1}"]["shift"] = [P.add(f"irf{di+1}_sh{i+1}", rng.uniform(-0.1, 0.1), vary=False) for i in range(len(spec))]
         time = _time_axis(rng, n_time, t_end, neg=True)
+        if pfid_pre:
+            pre = sorted({round(-rng.uniform(0.05, 2.5), 6) for _ in range(pfid_pre)})
+            time = sorted(set(pre) | set(time))
         md["dataset"][dl] = dsd
         data[dl] = {"time": time, "spectral": spec, "labels": labels, "scale": scale}
 
@@ -356,5 +379,5 @@ def rand_case(rng, *, recover=False, small=True):
             del md[k]
     vary = [l for l, v, o in P.items if o["vary"]]
     case = {"kind": "zoo", "model": md, "parameters": P.items, "data": data, "tags": sorted(set(tags)),
-            "recover": vary if recover else None}
+            "recover": vary if (recover or wide) else None}
     return case
